@@ -1334,6 +1334,11 @@ func streamCompose(r *rng, n int, pfx string) {
 			k := deepLevels[r.n(len(deepLevels))]
 			d, p1, p2 = deepWrap(d, k, "k"), deepWrap(p1, k, "k"), deepWrap(p2, k, "k")
 		}
+		if r.chance(1, 120) {
+			// a nested object of P1 whose TEXT is big (just over 1 / 4 / 64 KiB: size-gated paths), met in P2 by an object
+			// that only deletes (null members) or is empty, by one that also sets something, or by nothing
+			fattenPair(r, p1, p2)
+		}
 		t1, t2, td := spell{r.n(3), r}.text(p1), spell{r.n(3), r}.text(p2), spell{r.n(3), r}.text(d)
 		comb := callMergeMerge(t1, t2)
 		seq := "err:-n"
@@ -1346,6 +1351,52 @@ func streamCompose(r *rng, n int, pfx string) {
 		}
 		emit("COMPOSE %s%d %s %s %s => %s %s %s", pfx, i, hx(t1), hx(t2), hx(td), comb, seq, app)
 	}
+}
+
+// see streamCompose
+func fattenPair(r *rng, p1, p2 *jv) {
+	if p1 == nil || p2 == nil || p1.kind != kObj || p2.kind != kObj {
+		return
+	}
+	name := "cfg"
+	var sub *jv
+	for i, k := range p1.keys {
+		if p1.vals[i].kind == kObj {
+			name, sub = k, p1.vals[i]
+			break
+		}
+	}
+	if sub == nil {
+		sub = &jv{kind: kObj, keys: []string{"other", "keep"}, vals: []*jv{{kind: kBool, b: true}, jnum("1")}}
+		p1.keys, p1.vals = append(p1.keys, name), append(p1.vals, sub)
+	}
+	size := []int{1100, 4200, 4200, 9000, 66000}[r.n(5)]
+	sub.keys = append(sub.keys, "blob")
+	sub.vals = append(sub.vals, jstr(strings.Repeat(r.pick([]string{"x", "ab", "<&>", "é"}), size)))
+	var q *jv
+	switch r.n(4) {
+	case 0:
+		q = &jv{kind: kObj}
+	case 1, 2:
+		q = &jv{kind: kObj}
+		for _, k := range sub.keys {
+			if k != "blob" && r.chance(2, 3) {
+				q.keys, q.vals = append(q.keys, k), append(q.vals, jnull())
+			}
+		}
+		if r.chance(1, 2) {
+			q.keys, q.vals = append(q.keys, "absent-in-p1"), append(q.vals, jnull())
+		}
+	default:
+		q = &jv{kind: kObj, keys: []string{"other", "set"}, vals: []*jv{jnull(), jnum("2")}}
+	}
+	for i, k := range p2.keys {
+		if k == name {
+			p2.vals[i] = q
+			return
+		}
+	}
+	p2.keys, p2.vals = append(p2.keys, name), append(p2.vals, q)
 }
 
 func streamCreate(r *rng, n int, pfx string) {
